@@ -51,6 +51,12 @@ func Harness_C16_Driver() {
 	args := []string{"fc"}
 	var files []c16File
 	unwritable := -1
+	// an output of an earlier run (longer than the new one) may already be there
+	stale := "// stale output of an earlier run\n"
+	for k := 0; k < 6; k++ {
+		stale += stale
+	}
+	hasStale := make([]bool, n)
 	for i := 0; i < n; i++ {
 		f := c16Pick(i)
 		files = append(files, f)
@@ -58,7 +64,11 @@ func Harness_C16_Driver() {
 		if f.kind != 6 {
 			verifSetFile(f.name, f.content)
 		}
-		if f.isFo() && !f.bad() && unwritable < 0 && verifChoice("unwritable"+itoaV(i), 2) == 1 {
+		if f.isFo() && !f.bad() && verifChoice("stale"+itoaV(i), 2) == 1 {
+			hasStale[i] = true
+			verifSetFile(f.gen(), stale)
+		}
+		if f.isFo() && !f.bad() && !hasStale[i] && unwritable < 0 && verifChoice("unwritable"+itoaV(i), 2) == 1 {
 			unwritable = i
 			verifFailWrite(f.gen())
 		}
@@ -94,6 +104,8 @@ func Harness_C16_Driver() {
 			continue
 		}
 		switch {
+		case firstBad >= 0 && i >= firstBad && hasStale[i]:
+			verifAssert(ok && g == stale, "an existing output is left as it was when the run fails before it")
 		case firstBad >= 0 && i == firstBad:
 			verifAssert(!ok, "nothing is written for the offending file")
 		case firstBad >= 0 && i > firstBad:
